@@ -71,6 +71,17 @@ def comp(f, xs, cond=None, kind="list"):
     return out
 
 
+def flat(xss):
+    """concatenation of the chunks ([E for x in S for y in T])"""
+    COUNTS["comp"] += 1
+    if isinstance(xss, SymSeq):
+        if not isinstance(xss.elem, list):
+            raise Unsupported("nested comprehension whose inner part is not a concrete-length list")
+        xss.flatten = True
+        return xss
+    return [y for ys in xss for y in ys]
+
+
 # ---- T3
 def join(sep, xs):
     COUNTS["join"] += 1
